@@ -134,7 +134,9 @@ def main():
         units += [('disp', 'SNR', 3, td, pr), ('disp', 'SNR', 9, td, pr), ('disp', 'SNR', 10, td, pr), ('disp', 'TB', 3, td, pr)]
     units += [('tt', 2, 2, 'float32', 'float64'), ('tt', 2, 1, 'float64', 'float32'), ('mia', 1, 2, 1, 2, 2, 'float32')]
     for td, pr in grid: units += [('inv', 'pk1', td, pr), ('inv', 'tk1', td, pr), ('inv', 'tt', td, pr)]
+    units += [('k2n', 2, 1, 2, 'float32', 'float64'), ('k2n', 1, 2, 3, 'uint8', 'float32'), ('k2n', 2, 1, 9, 'int16', 'float64')]
     def work(sub, kind, *args):
+        if kind == 'k2n': KI.report(sub, KI.partitioned_core2(u, *args), 'partitioned kernel 2, number of traces symbolic, %d samples x %d words x %d classes, %s->%s' % args, KN.PM + '::PartitionedDistinguisherMixin._accumulate_core_2', timeout, (), native, dict(kind='kernel', dist='SNR', which=2, tdtype=args[3], precision=args[4]), sat_is_undecided=True); return
         if kind == 'inv':
             which, td, pr = args
             fn_, key_, exp_, dist_ = {'pk1': (KI.partitioned_core1, KN.PM + '::PartitionedDistinguisherMixin._accumulate_core_1', (1, 1, 1), 'SNR'), 'tk1': (KI.template_core1, KN.TM + '::_TemplateBuildDistinguisherMixin._accumulate_core_1', (1, 1), 'TemplateBuild'), 'tt': (KI.ttest_core, KN.TT + '::TTestThreadAccumulator._update_core', (1,), 'ttest')}[which]
